@@ -12,12 +12,12 @@ demultiplexer of p2p/transport/quicreuse.
                          state compared as L2 (harness/p2p/transport/quicreuse/zz_verif_c04qr_*_test.go).
 """
 import concurrent.futures as cf
-import json
 import os
+import re
 import time
 
 from lib import evidence, findings, goenv, graph, tlc
-from lib.common import MachineryError, classify_mismatches, log
+from lib.common import HarnessCrash, MachineryError, classify_mismatches, log
 
 PARENT = "C04"
 PKG = "./p2p/transport/quicreuse"
@@ -46,6 +46,7 @@ def pool_print_instances(thorough):
         ("assoc", _pool_consts(sock=3, ln=2, dial=1, protos=("a",), assocs=("x",), addrs="AddrsA0"), u5),
         ("unicast", _pool_consts(sock=2, ln=2, dial=1, protos=("a",), addrs="AddrsA0U0", uips=("u1",)), u5),
         ("dq", _pool_consts(sock=2, ln=1, dial=1, share=1, lend=1, protos=("a",), addrs="AddrsA1", kinds=("dq",)), u5),
+        ("pref", _pool_consts(sock=2, ln=1, dial=2, protos=("a",), addrs="AddrsA1"), u5),
         ("faults", _pool_consts(sock=2, ln=1, dial=1, faults=1, protos=("a",), addrs="AddrsA0U0", uips=("u1",), kinds=("dq",)), u5),
         ("single", _pool_consts(reuse=False, sock=2, ln=2, dial=1, share=1, faults=1, kinds=("tfd", "dq")), u5),
         # the package's own constants (30 s / 10 s), untouched
@@ -221,6 +222,38 @@ POOL_NEED = ("listen-ok", "listen-dup", "listen-inuse", "listen-oserr", "listen-
              "closeshare", "lend", "tick", "tick-gc", "gc-collects", "closecm", "interleaved-with-dial", "tick-inside-dial")
 
 
+_OWN = ("quicreuse/connmgr.go", "quicreuse/reuse.go", "quicreuse/listener.go", "quicreuse/nonquic_packetconn.go")
+
+
+def _go(ctx, beh):
+    """Run the harness; a crash of the test process (panic in a goroutine of the code under test, or every goroutine of a
+    bubble blocked for ever = deadlock) is a violation if it happens again, with the package's own frames on the stack."""
+    def once():
+        return goenv.run_harness(ctx, PKG, "^TestVerifC04qr$", inputs=beh, timeout=2400, parallel=4, env={"VERIF_C04QR_WORKERS": 4})
+
+    def sig(e):
+        m = re.search(r"^panic: (.*)$", e.log, re.M)
+        if not m or not any(f in e.log for f in _OWN):
+            return None
+        return "deadlock" if "deadlock" in m.group(1) else "panic"
+    try:
+        return once()
+    except HarnessCrash as e:
+        k = sig(e)
+        if not k:
+            raise
+        try:
+            once()
+        except HarnessCrash as e2:
+            if sig(e2) == k:
+                m = re.search(r"^panic: (.*)$", e2.log, re.M)
+                what = "the harness process died twice: %s in the code under test (%s)" % (k, m.group(1)[:200])
+                return {"replayed": 0, "steps": 0, "distinct": 0, "samples": [], "extra": {"crashed": k}, "_rc": 0, "_log": e2.log[-3000:],
+                        "mismatches": [{"class": "harness-crash:" + k, "what": what, "got": e2.log[-3000:], "walk": -1, "step": -1}]}
+            raise
+        raise MachineryError("the harness process crashed once (%s) and not again with the same seed (inconclusive)" % k)
+
+
 def known_or_violation(ctx):
     """Stand-alone run (`./check C04qr`): findings are filed under the parent property."""
     keep = []
@@ -260,8 +293,7 @@ def run_part(ctx, thorough):
         pres = [f.result() for f in fp]
         mark("graphs")
         # the Go side starts as soon as the graphs are there, next to what is left of the TLC lanes
-        fgo = tp.submit(goenv.run_harness, ctx, PKG, "^TestVerifC04qr$", inputs=beh, timeout=2400, parallel=4,
-                        env={"VERIF_C04QR_WORKERS": 4})
+        fgo = tp.submit(_go, ctx, beh)
         xres = [f.result() for f in fx]
         guards = [f.result() for f in fg]
         mark("tlc")
@@ -285,7 +317,7 @@ def run_part(ctx, thorough):
         raise MachineryError("too many walks whose non-deterministic choices were never matched: %s" % ex)
     if res["distinct"] + skipped < edges_total and not ctx.violations:
         raise MachineryError("replay executed %d distinct transitions of %d (%d steps skipped after violations)" % (res["distinct"], edges_total, skipped))
-    if not ex.get("demux_production_queue_steps"):
+    if not ex.get("demux_production_queue_steps") and not ctx.violations:
         raise MachineryError("the production-size queue scenario did not run")
     states = sum(r[1] for r in xres) + sum(r[2] for r in pres)
     trans = sum(r[2] for r in xres) + sum(r[3] for r in pres)
